@@ -233,11 +233,99 @@ func callsWhere(f *ssa.Function, pred func(ci ssa.CallInstruction, label string)
 	return callsDeep(f, pred, nil, map[*ssa.Function]bool{f: true}, 0)
 }
 
+// storeSite: a store found in a function or, through private helpers, below it.
+type storeSite struct {
+	Fn    *ssa.Function
+	Store *ssa.Store
+	Via   []viaStep
+}
+
+func (s storeSite) base() callSite { return callSite{Fn: s.Fn, Via: s.Via} }
+
+// Facts before the store, in the terms of the function the search started in.
+func (s storeSite) Facts(c *core.Ctx) ens.FactSet {
+	fs := c.E.Analyze(s.Fn).FactsAt(s.Store)
+	if fs == nil || len(s.Via) == 0 {
+		return fs
+	}
+	// reuse the call-site machinery: rebind through the helper chain
+	cs := s.base()
+	out := fs.Clone()
+	for i := len(cs.Via) - 1; i >= 0; i-- {
+		st := cs.Via[i]
+		ca := c.E.Analyze(st.In)
+		var args []*ens.Node
+		for _, a := range st.Site.Common().Args {
+			args = append(args, ca.D.D(a))
+		}
+		nx := ens.FactSet{}
+		for _, f := range out {
+			nx.Add(f.Subst(args, ""))
+		}
+		outer := ca.FactsAt(st.Site)
+		if outer == nil {
+			return nil
+		}
+		for _, f := range outer {
+			nx.Add(f)
+		}
+		out = nx
+	}
+	return out
+}
+
+func (s storeSite) Val(c *core.Ctx) *ens.Node {
+	return s.base().rebind(c, c.E.Analyze(s.Fn).D.D(s.Store.Val))
+}
+
+func (s storeSite) Addr(c *core.Ctx) *ens.Node {
+	return s.base().rebind(c, c.E.Analyze(s.Fn).D.D(s.Store.Addr))
+}
+
+// storesWhere lists the stores matching pred in f, its closures and (depth ≤ 2)
+// the private same-package helpers it calls.
+func storesWhere(f *ssa.Function, pred func(*ssa.Store) bool) []storeSite {
+	var out []storeSite
+	var rec func(g *ssa.Function, via []viaStep, depth int, seen map[*ssa.Function]bool)
+	rec = func(g0 *ssa.Function, via []viaStep, depth int, seen map[*ssa.Function]bool) {
+		for _, g := range funcsWithAnon(g0) {
+			for _, b := range g.Blocks {
+				for _, in := range b.Instrs {
+					if st, ok := in.(*ssa.Store); ok && pred(st) {
+						out = append(out, storeSite{g, st, via})
+						continue
+					}
+					cv, ok := in.(*ssa.Call)
+					if !ok || depth >= 2 {
+						continue
+					}
+					h := cv.Call.StaticCallee()
+					if h == nil || len(h.Blocks) == 0 || h.Pkg == nil || h.Pkg != topFunc(f).Pkg || seen[h] || h.Parent() != nil {
+						continue
+					}
+					if obj := h.Object(); obj != nil && obj.Exported() {
+						continue
+					}
+					if _, stop := noDescend[ens.SSAFuncName(h)]; stop {
+						continue
+					}
+					seen[h] = true
+					rec(h, append(append([]viaStep{}, via...), viaStep{cv, g}), depth+1, seen)
+					delete(seen, h)
+				}
+			}
+		}
+	}
+	rec(f, nil, 0, map[*ssa.Function]bool{f: true})
+	return out
+}
+
 // noDescend: helpers that are anchors of rules of their own; a search started
 // in their caller does not look inside them (their sites have their own
 // obligations, with their own required facts).
 var noDescend = map[string]string{
 	"ssv/protocol/v2/ssv/runner.BaseRunner.resolveDuplicateSignature": "C05-R3 new-sig-verified is the rule for its AddSignature site",
+	"ssv/protocol/v2/ssv/queue.priorityQueue.pop":                     "C14-R1 unlink discipline is the rule for its list stores",
 }
 
 func callsDeep(f *ssa.Function, match func(ci ssa.CallInstruction, label string) bool, via []viaStep, seen map[*ssa.Function]bool, depth int) []callSite {
